@@ -197,6 +197,12 @@ def run(tier):
     fallback_and_handover(prog, res)
     tentative_table_rollback(prog, res)
     t4_common.run(prog, res, "T4.error-discipline", ["lib/compress/"], 220)
+    # frozen guards of lib/compress for the error codes this property owns (shared inventory, split by code)
+    import json as _json, os as _os
+    from ..rules import guards as _guards
+    _inv = [e for e in _json.load(open(_os.path.join(_os.path.dirname(_os.path.abspath(__file__)), "inv", "compress_all.json"))) if set(e["codes"]) & {'GENERIC', 'init_missing', 'srcSize_wrong'}]
+    _guards.check_inventory(prog, res, 'T8.frozen-guards(srcSize,generic)', _inv)
+    res.need('T8.frozen-guards(srcSize,generic)', 8)
     return res.finish(
         explanation="Encoder symbol maps (LL_Code/ML_Code and their highbit+delta forms) are checked value by value "
                     "against the decoder's base/extra-bit tables; the 40+12 cells of the block-compressor dispatch "
